@@ -77,6 +77,7 @@ type FuncSpec struct {
 	Modifies   []ast.Expr
 	ModSrc     []string
 	Pure       bool
+	Function   bool // results are a deterministic function of the argument values only (modelled as uninterpreted functions)
 	Loops      map[int]*LoopSpec
 	Uses       []UseHint
 	AllowPanic map[int]string // panic ordinal -> reason; -1 = all
@@ -106,6 +107,7 @@ type CallBind struct {
 }
 
 type CallAssert struct {
+	Assume  bool   // assumed (listed in the evidence) instead of proved
 	Callee  string // "strconv.ParseInt"
 	Ordinal int
 	Expr    ast.Expr
@@ -308,7 +310,7 @@ func parseFnHeader(s string) (name string, params []Param, ret string, body stri
 }
 
 var clauseKeywords = []string{"requires", "ensures", "modifies", "loop", "use", "pure", "inline", "allow-panic",
-	"check-overflow", "ghost", "bind", "implements", "after", "no-recursion", "trusted", "before", "fresh", "no-safety", "params", "results", "induction", "axiom"}
+	"check-overflow", "ghost", "bind", "implements", "after", "no-recursion", "function", "assume", "trusted", "before", "fresh", "no-safety", "params", "results", "induction", "axiom"}
 
 func startsWithKeyword(s string) (string, string, bool) {
 	for _, k := range clauseKeywords {
@@ -561,6 +563,9 @@ func (sf *SpecFile) addItem(it *rawItem, pkg string) error {
 				fs.NoRecursion = tg
 			case "implements":
 				fs.Implements = strings.TrimSpace(l.text)
+			case "function":
+				fs.Function = true
+				fs.Pure = true
 			case "pure":
 				fs.Pure = true
 			case "inline":
@@ -682,6 +687,18 @@ func (sf *SpecFile) addItem(it *rawItem, pkg string) error {
 					return err
 				}
 				fs.AfterLoop = append(fs.AfterLoop, CallAssert{Ordinal: n, Expr: c.Expr, Src: c.Src, Tags: c.Tags})
+			case "assume":
+				// assume call <callee>#<k>: <expr>   (an unchecked assumption at a call site; listed in the evidence)
+				m := regexp.MustCompile(`^call\s+(\S+?)#(\d+)\s*:\s*(.*)$`).FindStringSubmatch(l.text)
+				if m == nil {
+					return fmt.Errorf("bad assume clause %q", l.text)
+				}
+				n, _ := strconv.Atoi(m[2])
+				c, err := parseClause(m[3], l.line)
+				if err != nil {
+					return err
+				}
+				fs.Asserts = append(fs.Asserts, CallAssert{Assume: true, Callee: m[1], Ordinal: n, Expr: c.Expr, Src: c.Src, Tags: c.Tags})
 			case "before":
 				// before call <callee>#<k>: assert <expr>
 				m := regexp.MustCompile(`^call\s+(\S+?)#(\d+)\s*:\s*assert\s+(.*)$`).FindStringSubmatch(l.text)
